@@ -159,7 +159,7 @@ def encode_replace(text):
     """real codec machinery with encoding_errors='htmlentityreplace' for several charsets: {charset: (ok, detail)}"""
     from mako import filters  # registers the handler
     out = {}
-    for cs in ("ascii", "latin-1", "cp1251", "shift_jis", "utf-8"):
+    for cs in ("ascii", "latin-1", "cp1251", "shift_jis", "utf-8", "cp037", "iso2022_jp"):
         try:
             text.encode(cs, "strict")
             continue   # natively encodable in this charset: the handler is not involved
